@@ -1,9 +1,960 @@
-//! C19 — (stub; not built yet)
+//! C19 — partition, weight and MEDIT mesh files round-trip losslessly.
+//!
+//! Ops (bytes as lower-case hex, `-` = empty; floats as hex bit patterns):
+//!   penc <n> <id>*                       -> `<bytes> | <decoded>`
+//!   pdec <bytes>                         -> `<decoded>`
+//!   wenc <i|f> <nrows> <c> <value>*      -> `<bytes> | <decoded>`
+//!   wdec <bytes>                         -> `<decoded>`
+//!   mbenc <mesh>                         -> `<bytes> | bin <decoded>`
+//!   maenc <mesh> <k> (<bits> <display>)* -> `<text> | tok=1 | ascii <decoded>`
+//!   mdec <bytes> <k> (<token> <bits|->)* -> `<bin|ascii|other> <decoded>`
+//! <mesh> = `dim nc coords* nr refs* nb (ty nn nodes* nr refs*)*`
+//! The tables of `maenc`/`mdec` carry Rust's own `Display`/`FromStr` results for the
+//! float tokens (the abstract number syntax of the token-level model).
+//! Oracle (independent of the model): data read == data written, bit for bit.
 
 use crate::common::*;
+use mesh_io::{medit, partition, weight, ElementType, Mesh};
 
-pub fn generate(_ctx: &mut Ctx) {}
+// ---------------------------------------------------------------- helpers
+
+fn hex(b: &[u8]) -> String {
+    if b.is_empty() {
+        return "-".into();
+    }
+    let mut s = String::with_capacity(b.len() * 2);
+    for x in b {
+        s.push_str(&format!("{:02x}", x));
+    }
+    s
+}
+
+fn unhex(s: &str) -> Option<Vec<u8>> {
+    if s == "-" {
+        return Some(vec![]);
+    }
+    if s.len() % 2 != 0 || !s.is_ascii() {
+        return None;
+    }
+    (0..s.len() / 2).map(|i| u8::from_str_radix(&s[2 * i..2 * i + 2], 16).ok()).collect()
+}
+
+fn fnv(s: &str) -> u64 {
+    let mut h: u64 = 0xcbf29ce484222325;
+    for b in s.bytes() {
+        h = (h ^ b as u64).wrapping_mul(0x100000001b3);
+    }
+    h
+}
+
+fn cap(s: String) -> String {
+    if s.len() > 8192 {
+        format!("#{} {:x}", s.len(), fnv(&s))
+    } else {
+        s
+    }
+}
+
+const TYS: [(&str, ElementType); 7] = [
+    ("v", ElementType::Vertex),
+    ("e", ElementType::Edge),
+    ("t", ElementType::Triangle),
+    ("qa", ElementType::Quadrangle),
+    ("ql", ElementType::Quadrilateral),
+    ("te", ElementType::Tetrahedron),
+    ("h", ElementType::Hexahedron),
+];
+
+fn ty_name(t: ElementType) -> &'static str {
+    TYS.iter().find(|(_, x)| *x == t).unwrap().0
+}
+
+/// mesh data as it crosses the protocol
+#[derive(Clone, PartialEq, Debug)]
+struct M {
+    dim: usize,
+    coords: Vec<u64>,
+    refs: Vec<isize>,
+    blocks: Vec<(ElementType, Vec<usize>, Vec<isize>)>,
+}
+
+impl M {
+    fn fmt(&self) -> String {
+        let mut v: Vec<String> = vec![self.dim.to_string(), self.coords.len().to_string()];
+        v.extend(self.coords.iter().map(|c| format!("{:x}", c)));
+        v.push(self.refs.len().to_string());
+        v.extend(self.refs.iter().map(|r| r.to_string()));
+        v.push(self.blocks.len().to_string());
+        for (t, n, r) in &self.blocks {
+            v.push(ty_name(*t).to_string());
+            v.push(n.len().to_string());
+            v.extend(n.iter().map(|x| x.to_string()));
+            v.push(r.len().to_string());
+            v.extend(r.iter().map(|x| x.to_string()));
+        }
+        v.join(" ")
+    }
+    fn raw_parts_ok(&self) -> bool {
+        self.dim != 0
+            && Some(self.coords.len()) == self.dim.checked_mul(self.refs.len())
+            && self.blocks.iter().all(|(t, n, r)| n.len() == r.len() * t.node_count())
+    }
+    fn to_mesh(&self) -> Mesh {
+        Mesh::from_raw_parts(
+            self.dim,
+            self.coords.iter().map(|b| f64::from_bits(*b)).collect(),
+            self.refs.clone(),
+            self.blocks.clone(),
+        )
+    }
+    fn of_mesh(m: &Mesh) -> M {
+        M {
+            dim: m.dimension(),
+            coords: m.coordinates().iter().map(|c| c.to_bits()).collect(),
+            refs: m.node_refs().to_vec(),
+            blocks: m.topology().to_vec(),
+        }
+    }
+}
+
+fn take<'a, T>(it: &mut impl Iterator<Item = &'a str>, f: impl Fn(&str) -> Option<T>) -> Option<Vec<T>> {
+    let n: usize = it.next()?.parse().ok()?;
+    let mut v = Vec::with_capacity(n.min(1 << 20));
+    for _ in 0..n {
+        v.push(f(it.next()?)?);
+    }
+    Some(v)
+}
+
+fn parse_mesh<'a>(it: &mut impl Iterator<Item = &'a str>) -> Option<M> {
+    let dim: usize = it.next()?.parse().ok()?;
+    let coords = take(it, |s| u64::from_str_radix(s, 16).ok())?;
+    let refs = take(it, |s| s.parse::<isize>().ok())?;
+    let nb: usize = it.next()?.parse().ok()?;
+    let mut blocks = vec![];
+    for _ in 0..nb {
+        let t = it.next()?;
+        let t = TYS.iter().find(|(n, _)| *n == t)?.1;
+        let nodes = take(it, |s| s.parse::<usize>().ok())?;
+        let r = take(it, |s| s.parse::<isize>().ok())?;
+        blocks.push((t, nodes, r));
+    }
+    Some(M { dim, coords, refs, blocks })
+}
+
+fn fmt_ids(r: &partition::Result<Vec<usize>>) -> String {
+    match r {
+        Ok(ids) => cap(if ids.is_empty() { "ok 0".into() } else { format!("ok {} {}", ids.len(), join(ids)) }),
+        Err(partition::Error::BadHeader) => "err badheader".into(),
+        Err(partition::Error::UnsupportedVersion) => "err version".into(),
+        Err(partition::Error::Io(_)) => "err io".into(),
+    }
+}
+
+fn fmt_w(r: &weight::Result<weight::Array>) -> String {
+    match r {
+        Ok(weight::Array::Integers(rows)) => {
+            let c = rows.first().map_or(0, |r| r.len());
+            let flat: Vec<i64> = rows.iter().flatten().cloned().collect();
+            cap(format!("ok i {} {} {}", rows.len(), c, join(&flat)).trim_end().to_string())
+        }
+        Ok(weight::Array::Floats(rows)) => {
+            let c = rows.first().map_or(0, |r| r.len());
+            let flat: Vec<String> = rows.iter().flatten().map(|x| format!("{:x}", x.to_bits())).collect();
+            cap(format!("ok f {} {} {}", rows.len(), c, flat.join(" ")).trim_end().to_string())
+        }
+        Err(weight::Error::BadHeader) => "err badheader".into(),
+        Err(weight::Error::UnsupportedVersion) => "err version".into(),
+        Err(weight::Error::Io(_)) => "err io".into(),
+    }
+}
+
+fn fmt_mesh(r: &mesh_io::Result<Mesh>) -> String {
+    match r {
+        Ok(m) => cap(format!("ok {}", M::of_mesh(m).fmt())),
+        Err(mesh_io::Error::Io(_)) => "err io".into(),
+        Err(mesh_io::Error::Medit(e)) => {
+            let s = e.to_string();
+            let s = s.splitn(2, ": ").nth(1).unwrap_or("").to_string();
+            if s.starts_with("expected token") {
+                "err tok".into()
+            } else if s.starts_with("io error") {
+                "err io".into()
+            } else if s.starts_with("when parsing integer") {
+                "err int".into()
+            } else if s.starts_with("when parsing float") {
+                "err float".into()
+            } else {
+                format!("err ?{}", s)
+            }
+        }
+        Err(_) => "err other".into(),
+    }
+}
+
+/// `Mesh::from_reader` on a byte slice, labelled with the format the public test
+/// functions announce (same order as `from_reader`).
+fn decode_any(ctx: &mut Ctx, bytes: &[u8]) -> Caught<String> {
+    let b = bytes.to_vec();
+    catch(move || {
+        let label = if medit::test_format_binary(&b) {
+            "bin"
+        } else if medit::test_format_ascii(&b) {
+            "ascii"
+        } else {
+            "other"
+        };
+        if label == "other" {
+            // VTK or UnknownFormat: outside this property
+            return "other".to_string();
+        }
+        let r = Mesh::from_reader(&b[..]);
+        format!("{} {}", label, fmt_mesh(&r))
+    })
+    .also(|_| ctx.count("from_reader_calls"))
+}
+
+trait Also: Sized {
+    fn also(self, f: impl FnOnce(&Self)) -> Self {
+        f(&self);
+        self
+    }
+}
+impl<T> Also for Caught<T> {}
+
+fn finish(prefix: String, res: Caught<String>) -> (String, bool) {
+    match res {
+        Caught::Ok(s) => (format!("{}{}", prefix, s), false),
+        Caught::Panic(m) => (format!("panic {}", m), true),
+        Caught::Hang => ("hang".into(), true),
+    }
+}
+
+// ---------------------------------------------------------------- generator
+
+const F_SPECIAL: [u64; 18] = [
+    0x0000000000000000, // +0
+    0x8000000000000000, // -0
+    0x0000000000000001, // smallest subnormal
+    0x800fffffffffffff, // largest negative subnormal
+    0x0010000000000000, // smallest normal
+    0x7fefffffffffffff, // f64::MAX
+    0xffefffffffffffff, // f64::MIN
+    0x3ff0000000000000, // 1
+    0x3fb999999999999a, // 0.1
+    0x4340000000000000, // 2^53
+    0x7ff0000000000000, // +inf
+    0xfff0000000000000, // -inf
+    0x7ff8000000000000, // quiet NaN
+    0x7ff0000000000001, // signalling NaN, payload 1
+    0xfff8000000000000, // negative quiet NaN
+    0x7fffffffffffffff, // NaN, all payload bits
+    0xfff4000000000123, // negative signalling NaN with payload
+    0x7ff8dead0000beef, // quiet NaN with payload
+];
+
+const I_SPECIAL: [i64; 8] = [0, 1, -1, i64::MIN, i64::MAX, i64::MIN + 1, 1 << 32, -(1 << 53)];
+
+fn gen_f(rng: &mut Rng, finite: bool) -> u64 {
+    loop {
+        let b = match rng.usize(4) {
+            0 => *rng.pick(&F_SPECIAL),
+            1 => ((rng.range(-1000, 1000) as f64) / 8.0).to_bits(),
+            2 => (rng.range(-1_000_000, 1_000_000) as f64 * 1e-3).to_bits(),
+            _ => rng.next(),
+        };
+        if !finite || f64::from_bits(b).is_finite() {
+            return b;
+        }
+    }
+}
+
+fn gen_ref(rng: &mut Rng) -> isize {
+    match rng.usize(4) {
+        0 => *rng.pick(&I_SPECIAL) as isize,
+        1 => rng.next() as isize,
+        _ => rng.range(-3, 9) as isize,
+    }
+}
+
+const QUANT: [ElementType; 5] = [
+    ElementType::Edge,
+    ElementType::Triangle,
+    ElementType::Quadrilateral,
+    ElementType::Tetrahedron,
+    ElementType::Hexahedron,
+];
+
+fn gen_mesh(rng: &mut Rng, small_ints: bool, allow_outside: bool) -> M {
+    let dim = 2 + rng.usize(2);
+    let nv = if rng.chance(1, 8) { 0 } else { 1 + rng.usize(6) };
+    let coords = (0..dim * nv).map(|_| gen_f(rng, true)).collect();
+    let refs = (0..nv).map(|_| if small_ints { rng.range(-3, 9) as isize } else { gen_ref(rng) }).collect();
+    let nb = rng.usize(5);
+    let mut blocks = vec![];
+    let mut last = None;
+    for _ in 0..nb {
+        let mut t = *rng.pick(&QUANT);
+        if let Some(l) = last {
+            if rng.chance(1, 3) {
+                t = l; // several blocks of the same type
+            }
+        }
+        if allow_outside && rng.chance(1, 12) {
+            t = if rng.chance(1, 2) { ElementType::Quadrangle } else { ElementType::Vertex };
+        }
+        last = Some(t);
+        let ne = if rng.chance(1, 5) { 0 } else { 1 + rng.usize(3) };
+        let nodes = (0..ne * t.node_count())
+            .map(|_| {
+                if small_ints || !rng.chance(1, 10) {
+                    rng.usize(nv.max(1))
+                } else {
+                    match rng.usize(if allow_outside { 6 } else { 4 }) {
+                        0 => (1usize << 40) + rng.usize(100),
+                        1 => (i64::MAX - 1) as usize,
+                        2 => (1usize << 31) - 1,
+                        3 => (1usize << 32) + 7,
+                        4 => i64::MAX as usize, // binary writer: `node as i64 + 1` overflows
+                        _ => usize::MAX,        // ASCII writer: `node + 1` overflows
+                    }
+                }
+            })
+            .collect();
+        let r = (0..ne).map(|_| if small_ints { rng.range(-3, 9) as isize } else { gen_ref(rng) }).collect();
+        blocks.push((t, nodes, r));
+    }
+    M { dim, coords, refs, blocks }
+}
+
+fn show_table(m: &M) -> String {
+    let mut seen = std::collections::BTreeSet::new();
+    let mut v = vec![];
+    for c in &m.coords {
+        if seen.insert(*c) {
+            v.push(format!("{:x} {}", c, hex(format!("{}", f64::from_bits(*c)).as_bytes())));
+        }
+    }
+    format!("{} {}", seen.len(), v.join(" ")).trim_end().to_string()
+}
+
+fn parse_table(bytes: &[u8]) -> String {
+    if !medit::test_format_ascii(bytes) || medit::test_format_binary(bytes) {
+        return "0".into();
+    }
+    let Ok(text) = std::str::from_utf8(bytes) else { return "0".into() };
+    let mut seen = std::collections::BTreeSet::new();
+    let mut v = vec![];
+    for tok in text.split(|c| c == ' ' || c == '\t' || c == '\r' || c == '\n') {
+        if tok.is_empty() || !seen.insert(tok) {
+            continue;
+        }
+        match tok.parse::<f64>() {
+            Ok(x) => v.push(format!("{} {:x}", hex(tok.as_bytes()), x.to_bits())),
+            Err(_) => v.push(format!("{} -", hex(tok.as_bytes()))),
+        }
+    }
+    format!("{} {}", v.len(), v.join(" ")).trim_end().to_string()
+}
+
+fn mdec_op(bytes: &[u8]) -> String {
+    format!("mdec {} {}", hex(bytes), parse_table(bytes))
+}
+
+/// Independent encoder of the other binary MEDIT flavours the reader accepts
+/// (versions 2–4, both byte orders); there is no such writer in the repository.
+fn enc_bin(m: &M, ver: i32, be: bool) -> Vec<u8> {
+    let mut o = vec![];
+    let key = |o: &mut Vec<u8>, v: i32| o.extend(if be { v.to_be_bytes() } else { v.to_le_bytes() });
+    let int = |o: &mut Vec<u8>, v: i64| {
+        if ver == 4 {
+            o.extend(if be { v.to_be_bytes() } else { v.to_le_bytes() })
+        } else {
+            o.extend(if be { (v as i32).to_be_bytes() } else { (v as i32).to_le_bytes() })
+        }
+    };
+    let pos = |o: &mut Vec<u8>, v: i64| {
+        if ver >= 3 {
+            o.extend(if be { v.to_be_bytes() } else { v.to_le_bytes() })
+        } else {
+            o.extend(if be { (v as i32).to_be_bytes() } else { (v as i32).to_le_bytes() })
+        }
+    };
+    key(&mut o, 1);
+    key(&mut o, ver);
+    key(&mut o, 3);
+    pos(&mut o, 0);
+    key(&mut o, m.dim as i32);
+    key(&mut o, 4);
+    pos(&mut o, 0);
+    int(&mut o, m.refs.len() as i64);
+    for (i, r) in m.refs.iter().enumerate() {
+        for c in &m.coords[i * m.dim..(i + 1) * m.dim] {
+            o.extend(if be { c.to_be_bytes() } else { c.to_le_bytes() });
+        }
+        int(&mut o, *r as i64);
+    }
+    for (t, nodes, refs) in &m.blocks {
+        let code = match t {
+            ElementType::Edge => 5,
+            ElementType::Triangle => 6,
+            ElementType::Quadrilateral | ElementType::Quadrangle => 7,
+            ElementType::Tetrahedron => 8,
+            ElementType::Hexahedron => 9,
+            ElementType::Vertex => continue,
+        };
+        key(&mut o, code);
+        pos(&mut o, 0);
+        int(&mut o, refs.len() as i64);
+        for (i, r) in refs.iter().enumerate() {
+            for n in &nodes[i * t.node_count()..(i + 1) * t.node_count()] {
+                int(&mut o, *n as i64 + 1);
+            }
+            int(&mut o, *r as i64);
+        }
+    }
+    key(&mut o, 54);
+    o
+}
+
+pub fn generate(ctx: &mut Ctx) {
+    // ---------------- partition files
+    let edge_ids: [usize; 7] = [0, 1, 255, 256, 1 << 32, 1 << 63, usize::MAX];
+    // exhaustive small sub-space: every id vector over the edge values up to length 2
+    run_op(ctx, "penc 0");
+    for a in edge_ids {
+        run_op(ctx, &format!("penc 1 {}", a));
+        for b in edge_ids {
+            run_op(ctx, &format!("penc 2 {} {}", a, b));
+        }
+    }
+    ctx.notes.push("exhaustive sub-space: every id vector of length <= 2 over {0,1,255,256,2^32,2^63,2^64-1}".into());
+    for _ in 0..ctx.budget(150, 12000) {
+        let n = match ctx.rng.usize(4) {
+            0 => ctx.rng.usize(3),
+            1 => 3 + ctx.rng.usize(10),
+            _ => ctx.rng.usize(if ctx.quick() { 60 } else { 300 }),
+        };
+        let mode = ctx.rng.usize(3);
+        let ids: Vec<usize> = (0..n)
+            .map(|_| match mode {
+                0 => ctx.rng.usize(8),
+                1 => ctx.rng.next() as usize,
+                _ => *ctx.rng.pick(&edge_ids),
+            })
+            .collect();
+        ctx.count(&format!("partition_mode_{}", mode));
+        run_op(ctx, &format!("penc {} {}", n, join(&ids)).trim_end().to_string());
+    }
+    // malformed partition files
+    {
+        let mut good = vec![];
+        partition::write(&mut good, [3usize, 0, usize::MAX].into_iter()).unwrap();
+        for k in 0..good.len() {
+            run_op(ctx, &format!("pdec {}", hex(&good[..k]))); // every truncation
+        }
+        let mut b = good.clone();
+        b[0] = b'm';
+        run_op(ctx, &format!("pdec {}", hex(&b)));
+        let mut b = good.clone();
+        b[4] = 4; // count + 1
+        run_op(ctx, &format!("pdec {}", hex(&b)));
+        let mut b = good.clone();
+        b[4] = 2; // count - 1: trailing bytes are ignored
+        run_op(ctx, &format!("pdec {}", hex(&b)));
+        let mut b = good.clone();
+        b[11] = 0x20; // count = 2^61+3: `Vec::with_capacity` panics
+        run_op(ctx, &format!("pdec {}", hex(&b)));
+        let mut b = good.clone();
+        b.extend([1, 2, 3]);
+        run_op(ctx, &format!("pdec {}", hex(&b)));
+        for _ in 0..ctx.budget(30, 1500) {
+            let mut b = good.clone();
+            let k = ctx.rng.usize(11); // never the high count bytes (allocation size)
+            b[k] = ctx.rng.next() as u8 & if k >= 6 { 0 } else { 0xff };
+            let cut = ctx.rng.usize(b.len() + 1);
+            if ctx.rng.chance(1, 2) {
+                b.truncate(cut);
+            }
+            ctx.count("partition_garbled");
+            run_op(ctx, &format!("pdec {}", hex(&b)));
+        }
+    }
+
+    // ---------------- weight files
+    for kind in ["i", "f"] {
+        run_op(ctx, &format!("wenc {} 0 0", kind)); // the empty array
+        run_op(ctx, &format!("wenc {} 0 3", kind));
+        run_op(ctx, &format!("wenc {} 2 0", kind)); // two rows of zero criteria
+    }
+    // exhaustive: one row, one criterion, every special pattern
+    for b in F_SPECIAL {
+        run_op(ctx, &format!("wenc f 1 1 {:x}", b));
+    }
+    for v in I_SPECIAL {
+        run_op(ctx, &format!("wenc i 1 1 {}", v));
+    }
+    for _ in 0..ctx.budget(250, 20000) {
+        let c = match ctx.rng.usize(8) {
+            0 => 5 + ctx.rng.usize(if ctx.quick() { 8 } else { 300 }), // beyond the old limit (D2)
+            _ => 1 + ctx.rng.usize(4),
+        };
+        let n = match ctx.rng.usize(4) {
+            0 => 1,
+            1 => 2,
+            _ => 1 + ctx.rng.usize(if ctx.quick() { 10 } else { 40 }),
+        };
+        ctx.count(&format!("weights_criteria_{}", if c > 4 { "5+".to_string() } else { c.to_string() }));
+        if ctx.rng.chance(1, 2) {
+            let vals: Vec<String> = (0..n * c)
+                .map(|_| match ctx.rng.usize(3) {
+                    0 => I_SPECIAL[ctx.rng.usize(I_SPECIAL.len())].to_string(),
+                    1 => (ctx.rng.next() as i64).to_string(),
+                    _ => ctx.rng.range(-5, 100).to_string(),
+                })
+                .collect();
+            run_op(ctx, &format!("wenc i {} {} {}", n, c, vals.join(" ")));
+        } else {
+            let vals: Vec<String> = (0..n * c).map(|_| format!("{:x}", gen_f(&mut ctx.rng, false))).collect();
+            run_op(ctx, &format!("wenc f {} {} {}", n, c, vals.join(" ")));
+        }
+    }
+    // malformed weight files
+    {
+        let mut good = vec![];
+        weight::write_floats(&mut good, [[1.5f64, f64::NAN], [-0.0, 2.0]].iter().map(|r| r.iter().cloned())).unwrap();
+        for k in 0..good.len() {
+            run_op(ctx, &format!("wdec {}", hex(&good[..k])));
+        }
+        for (pos, val) in [(0usize, 0u8), (3, b'E'), (4, 0), (4, 2), (5, 1), (5, 0xfe), (5, 0xff), (6, 0), (6, 3), (7, 1), (8, 3), (8, 1), (15, 0x10)] {
+            let mut b = good.clone();
+            b[pos] = val;
+            run_op(ctx, &format!("wdec {}", hex(&b)));
+        }
+        let mut b = good.clone();
+        b.extend([9, 9]);
+        run_op(ctx, &format!("wdec {}", hex(&b)));
+        for _ in 0..ctx.budget(30, 1500) {
+            let mut b = good.clone();
+            let k = ctx.rng.usize(14); // never the high count bytes (allocation size)
+            b[k] = ctx.rng.next() as u8 & if k >= 10 { 0 } else { 0xff };
+            if k == 7 {
+                b[k] &= 0x0f; // keep the row buffer small
+            }
+            let cut = ctx.rng.usize(b.len() + 1);
+            if ctx.rng.chance(1, 2) {
+                b.truncate(cut);
+            }
+            ctx.count("weights_garbled");
+            run_op(ctx, &format!("wdec {}", hex(&b)));
+        }
+    }
+
+    // ---------------- MEDIT meshes: round trips, binary and ASCII
+    for i in 0..ctx.budget(220, 15000) {
+        let m = gen_mesh(&mut ctx.rng, false, i % 4 == 3);
+        run_op(ctx, &format!("mbenc {}", m.fmt()));
+        run_op(ctx, &format!("maenc {} {}", m.fmt(), show_table(&m)));
+    }
+    // the reader is more liberal than the writer: other versions / byte orders
+    for _ in 0..ctx.budget(60, 3000) {
+        let m = gen_mesh(&mut ctx.rng, true, false);
+        let ver = 2 + ctx.rng.usize(3) as i32;
+        let be = ctx.rng.chance(1, 2);
+        ctx.count(&format!("bin_variant_v{}_{}", ver, if be { "be" } else { "le" }));
+        run_op(ctx, &mdec_op(&enc_bin(&m, ver, be)));
+    }
+    // malformed binary: every truncation of a few files, field substitutions
+    for j in 0..ctx.budget(3, 40) {
+        let m = gen_mesh(&mut ctx.rng, true, false);
+        let mut good = vec![];
+        m.to_mesh().serialize_medit_binary(&mut good).unwrap();
+        let step = if j == 0 { 1 } else { 7 };
+        for k in (0..good.len()).step_by(step) {
+            ctx.count("bin_truncated");
+            run_op(ctx, &mdec_op(&good[..k]));
+        }
+        for (pos, val) in [(0usize, 2u8), (0, 0), (3, 1), (4, 1), (4, 5), (4, 0), (8, 4), (20, 0), (24, 5), (24, 54), (24, 99)] {
+            if pos < good.len() {
+                let mut b = good.clone();
+                b[pos] = val;
+                ctx.count("bin_field_substituted");
+                run_op(ctx, &mdec_op(&b));
+            }
+        }
+        // a node index of 0 in the file: `0usize - 1`
+        if let Some((t, _, r)) = m.blocks.iter().find(|(t, _, r)| *t != ElementType::Vertex && !r.is_empty()) {
+            let _ = (t, r);
+            let mut m2 = m.clone();
+            let bytes = enc_bin(&m2, 4, false);
+            // locate the first element block: header 24 + vertices
+            let off = 24 + 20 + 8 * m2.refs.len() * (m2.dim + 1);
+            let mut skip = off;
+            for (t, _, r) in &m2.blocks {
+                if r.is_empty() {
+                    skip += 20;
+                    continue;
+                }
+                let _ = t;
+                break;
+            }
+            let mut b = bytes.clone();
+            if skip + 28 <= b.len() {
+                for x in &mut b[skip + 20..skip + 28] {
+                    *x = 0;
+                }
+                ctx.count("bin_node_zero");
+                run_op(ctx, &mdec_op(&b));
+            }
+            m2.blocks.clear();
+        }
+    }
+    // ASCII: liberal forms and malformed texts, by token-level edits of a written file
+    for _ in 0..ctx.budget(120, 6000) {
+        let m = gen_mesh(&mut ctx.rng, true, false);
+        let text = m.to_mesh().display_medit_ascii().to_string();
+        let mut lines: Vec<Vec<String>> =
+            text.split('\n').map(|l| l.split_whitespace().map(|s| s.to_string()).collect()).collect();
+        let edits = 1 + ctx.rng.usize(2);
+        for _ in 0..edits {
+            let li = ctx.rng.usize(lines.len());
+            let kind = ctx.rng.usize(12);
+            ctx.count(&format!("ascii_edit_{}", kind));
+            match kind {
+                0 => {
+                    // upper/lower-case keywords
+                    for l in lines.iter_mut() {
+                        for t in l.iter_mut() {
+                            if t.chars().all(|c| c.is_ascii_alphabetic()) {
+                                *t = t.to_ascii_uppercase();
+                            }
+                        }
+                    }
+                }
+                1 => lines.insert(li, vec![]), // blank line
+                2 => {
+                    // drop the last token of a line (a reference, a count, a keyword)
+                    lines[li].pop();
+                }
+                3 => {
+                    // junk after an element keyword on its own line
+                    for l in lines.iter_mut() {
+                        if l.len() == 1 && ["Edges", "Triangles", "Quadrilaterals", "Tetrahedra", "Hexahedra"].contains(&l[0].as_str()) {
+                            l.push("junk".into());
+                            break;
+                        }
+                    }
+                }
+                4 => lines.truncate(li), // truncated file
+                5 => {
+                    let toks = ["0", "-1", "x", "1.5", "End", "Vertices", "7", "+3", "1e2", "Corners", "nan", "18446744073709551616"];
+                    if !lines[li].is_empty() {
+                        let ti = ctx.rng.usize(lines[li].len());
+                        lines[li][ti] = ctx.rng.pick(&toks).to_string();
+                    }
+                }
+                6 => lines[li].push("9".into()), // extra word
+                7 => {
+                    // a skipped section
+                    let at = lines.len() - 1;
+                    lines.insert(at, vec!["Corners".into()]);
+                    lines.insert(at + 1, vec!["2".into()]);
+                    lines.insert(at + 2, vec!["1".into()]);
+                    lines.insert(at + 3, vec!["2".into()]);
+                }
+                8 => {
+                    // join a line with the next one
+                    if li + 1 < lines.len() {
+                        let nxt = lines.remove(li + 1);
+                        lines[li].extend(nxt);
+                    }
+                }
+                9 => {
+                    // split a line in two
+                    if lines[li].len() >= 2 {
+                        let k = 1 + ctx.rng.usize(lines[li].len() - 1);
+                        let tail = lines[li].split_off(k);
+                        lines.insert(li + 1, tail);
+                    }
+                }
+                10 => lines.insert(0, vec![]), // leading blank line
+                _ => {
+                    if !lines[li].is_empty() {
+                        let ti = ctx.rng.usize(lines[li].len());
+                        lines[li].remove(ti);
+                    }
+                }
+            }
+        }
+        let sep = *ctx.rng.pick(&[" ", "\t", "  ", " \r"]);
+        let nl = *ctx.rng.pick(&["\n", "\r\n", "\n"]);
+        let text: String = lines.iter().map(|l| l.join(sep)).collect::<Vec<_>>().join(nl);
+        run_op(ctx, &mdec_op(text.as_bytes()));
+    }
+    for t in ["", " ", "MeshVersionFormatted", "meshversionformatted 2 dimension 2 end", "MeshVersionFormatte 2", "# vtk DataFile Version 2.0\n", "\x01\x00\x00", "\x00\x00\x00\x01"] {
+        run_op(ctx, &mdec_op(t.as_bytes()));
+    }
+}
+
+// ---------------------------------------------------------------- runner + oracle
 
 pub fn run_op(ctx: &mut Ctx, op: &str) {
-    ctx.record(op.to_string(), "bad-op".into(), false);
+    let mut it = op.split_whitespace();
+    let bad = |ctx: &mut Ctx| {
+        ctx.record(op.to_string(), "bad-op".into(), false);
+    };
+    match it.next() {
+        Some("penc") => {
+            let Some(ids) = take(&mut it, |s| s.parse::<usize>().ok()) else { return bad(ctx) };
+            if it.next().is_some() {
+                return bad(ctx);
+            }
+            let ids2 = ids.clone();
+            let r = catch(move || {
+                let mut buf = vec![];
+                partition::write(&mut buf, ids2.iter().cloned()).map_err(|e| e.to_string())?;
+                let back = partition::read(&buf[..]);
+                Ok::<_, String>((buf, back))
+            });
+            let mut verdict = None;
+            let out = match r {
+                Caught::Ok(Ok((buf, back))) => {
+                    // independent statement of the format (mesh-part(1)): magic, count, ids, all LE
+                    let mut spec = b"MePe".to_vec();
+                    spec.extend((ids.len() as u64).to_le_bytes());
+                    for i in &ids {
+                        spec.extend((*i as u64).to_le_bytes());
+                    }
+                    if buf != spec {
+                        verdict = Some(("partition-format", "bytes differ from the documented layout".to_string()));
+                    }
+                    match &back {
+                        Ok(v) if *v == ids => {}
+                        other => {
+                            verdict = Some(("partition-roundtrip", format!("wrote {:?}, read {}", ids, fmt_ids(other))));
+                        }
+                    }
+                    format!("{} | {}", cap(hex(&buf)), fmt_ids(&back))
+                }
+                Caught::Ok(Err(e)) => format!("writer-error {}", e),
+                Caught::Panic(m) => {
+                    verdict = Some(("partition-panic", m.clone()));
+                    format!("panic {}", m)
+                }
+                Caught::Hang => "hang".into(),
+            };
+            ctx.count("penc");
+            let idx = ctx.record(op.to_string(), out, !ids.is_empty());
+            if let Some((sig, what)) = verdict {
+                ctx.fail(idx, sig, what);
+            }
+        }
+        Some("pdec") => {
+            let Some(b) = it.next().and_then(unhex) else { return bad(ctx) };
+            let (out, panicked) = finish(String::new(), catch(move || fmt_ids(&partition::read(&b[..]))));
+            if panicked {
+                ctx.count("malformed_input_panic");
+            }
+            ctx.count(&format!("pdec_{}", out.split(' ').take(2).collect::<Vec<_>>().join("_").chars().take(16).collect::<String>()));
+            ctx.record(op.to_string(), out, false);
+        }
+        Some("wenc") => {
+            let (Some(kind), Some(n), Some(c)) = (it.next(), it.next().and_then(|s| s.parse::<usize>().ok()), it.next().and_then(|s| s.parse::<usize>().ok())) else {
+                return bad(ctx);
+            };
+            let Some(total) = n.checked_mul(c) else { return bad(ctx) };
+            let toks: Vec<&str> = it.collect();
+            if toks.len() != total {
+                return bad(ctx);
+            }
+            let mut verdict = None;
+            let in_quantifier = n >= 1 && c >= 1 && c <= u16::MAX as usize;
+            let res: Caught<Result<(Vec<u8>, weight::Result<weight::Array>), String>>;
+            let mut same = false;
+            if kind == "i" {
+                let Some(vals) = toks.iter().map(|s| s.parse::<i64>().ok()).collect::<Option<Vec<i64>>>() else { return bad(ctx) };
+                let rows: Vec<Vec<i64>> = (0..n).map(|i| vals[i * c..(i + 1) * c].to_vec()).collect();
+                let rows2 = rows.clone();
+                res = catch(move || {
+                    let mut buf = vec![];
+                    weight::write_integers(&mut buf, rows2.iter().map(|r| r.iter().cloned())).map_err(|e| e.to_string())?;
+                    let back = weight::read(&buf[..]);
+                    Ok((buf, back))
+                });
+                if let Caught::Ok(Ok((_, Ok(weight::Array::Integers(back))))) = &res {
+                    same = *back == rows;
+                }
+            } else if kind == "f" {
+                let Some(vals) = toks.iter().map(|s| u64::from_str_radix(s, 16).ok()).collect::<Option<Vec<u64>>>() else { return bad(ctx) };
+                let rows: Vec<Vec<u64>> = (0..n).map(|i| vals[i * c..(i + 1) * c].to_vec()).collect();
+                let rows2 = rows.clone();
+                res = catch(move || {
+                    let mut buf = vec![];
+                    weight::write_floats(&mut buf, rows2.iter().map(|r| r.iter().map(|b| f64::from_bits(*b)))).map_err(|e| e.to_string())?;
+                    let back = weight::read(&buf[..]);
+                    Ok((buf, back))
+                });
+                if let Caught::Ok(Ok((_, Ok(weight::Array::Floats(back))))) = &res {
+                    // bit-identical, NaN payloads included
+                    let bits: Vec<Vec<u64>> = back.iter().map(|r| r.iter().map(|x| x.to_bits()).collect()).collect();
+                    same = bits == rows;
+                }
+            } else {
+                return bad(ctx);
+            }
+            let out = match res {
+                Caught::Ok(Ok((buf, back))) => {
+                    if in_quantifier && !same {
+                        verdict = Some(("weights-roundtrip", format!("{} rows x {} criteria ({}) read back as {}", n, c, kind, fmt_w(&back))));
+                    }
+                    if n == 0 && kind == "i" && !same {
+                        verdict = Some(("weights-empty-int", format!("read back as {}", fmt_w(&back))));
+                    }
+                    if !in_quantifier && !same {
+                        ctx.count(&format!("outside_quantifier_not_identical_{}_{}", kind, if n == 0 { "empty" } else { "zero_width" }));
+                    }
+                    format!("{} | {}", cap(hex(&buf)), fmt_w(&back))
+                }
+                Caught::Ok(Err(e)) => format!("writer-error {}", e),
+                Caught::Panic(m) => {
+                    if in_quantifier {
+                        verdict = Some(("weights-panic", m.clone()));
+                    } else {
+                        ctx.count("outside_quantifier_panic");
+                    }
+                    format!("panic {}", m)
+                }
+                Caught::Hang => "hang".into(),
+            };
+            ctx.count("wenc");
+            let idx = ctx.record(op.to_string(), out, in_quantifier);
+            if let Some((sig, what)) = verdict {
+                ctx.fail(idx, sig, what);
+            }
+        }
+        Some("wdec") => {
+            let Some(b) = it.next().and_then(unhex) else { return bad(ctx) };
+            let (out, panicked) = finish(String::new(), catch(move || fmt_w(&weight::read(&b[..]))));
+            if panicked {
+                ctx.count("malformed_input_panic");
+            }
+            ctx.count(&format!("wdec_{}", out.split(' ').take(2).collect::<Vec<_>>().join("_").chars().take(16).collect::<String>()));
+            ctx.record(op.to_string(), out, false);
+        }
+        Some(kind @ ("mbenc" | "maenc")) => {
+            let Some(m) = parse_mesh(&mut it) else { return bad(ctx) };
+            if !m.raw_parts_ok() {
+                return bad(ctx);
+            }
+            let binary = kind == "mbenc";
+            if !binary {
+                // the table is for the model; check it is Rust's own Display, and sample the
+                // trusted contract parse(display(x)) == x
+                let given: Vec<&str> = it.collect();
+                let want = show_table(&m);
+                if given.join(" ") != want {
+                    return bad(ctx);
+                }
+            } else if it.next().is_some() {
+                return bad(ctx);
+            }
+            // the hypotheses of the theorems = the property's quantifier + type ranges
+            let node_limit = if binary { i64::MAX as usize - 1 } else { usize::MAX - 1 };
+            let in_quantifier = (m.dim == 2 || m.dim == 3)
+                && m.coords.iter().all(|c| f64::from_bits(*c).is_finite())
+                && m.blocks.iter().all(|(t, n, _)| QUANT.contains(t) && n.iter().all(|x| *x <= node_limit));
+            let mut verdict = None;
+            if !binary {
+                for c in &m.coords {
+                    let x = f64::from_bits(*c);
+                    if x.is_finite() {
+                        match format!("{}", x).parse::<f64>() {
+                            Ok(y) if y.to_bits() == *c => ctx.count("std_contract_f64_sampled_ok"),
+                            _ => verdict = Some(("std-f64-display-parse", format!("{:x}", c))),
+                        }
+                    }
+                }
+            }
+            let m2 = m.clone();
+            let r = catch(move || {
+                let mesh = m2.to_mesh();
+                let mut buf = vec![];
+                if binary {
+                    mesh.serialize_medit_binary(&mut buf).map_err(|e| e.to_string())?;
+                } else {
+                    buf = mesh.display_medit_ascii().to_string().into_bytes();
+                }
+                Ok::<_, String>(buf)
+            });
+            let out = match r {
+                Caught::Ok(Ok(buf)) => {
+                    let dec = decode_any(ctx, &buf);
+                    // from_reader must dispatch to the parser of the writer's format
+                    let direct = {
+                        let b = buf.clone();
+                        catch(move || {
+                            let r = if binary { medit::parse_binary(&b[..]) } else { medit::parse_ascii(&b[..]) };
+                            format!("{} {}", if binary { "bin" } else { "ascii" }, fmt_mesh(&r.map_err(mesh_io::Error::from)))
+                        })
+                    };
+                    let want = format!("{} ok {}", if binary { "bin" } else { "ascii" }, cap(format!("ok {}", m.fmt())).trim_start_matches("ok "));
+                    match (&dec, &direct) {
+                        (Caught::Ok(a), Caught::Ok(b)) => {
+                            if a != b {
+                                verdict = Some(("sniff-dispatch", format!("from_reader: {} / direct parser: {}", a, b)));
+                            }
+                            if in_quantifier && *a != want {
+                                verdict = Some((if binary { "meditbin-roundtrip" } else { "meditascii-roundtrip" }, format!("wrote {} read {}", m.fmt(), a)));
+                            }
+                            if !in_quantifier {
+                                ctx.count(if *a == want { "outside_quantifier_identical" } else { "outside_quantifier_not_identical" });
+                            }
+                        }
+                        (Caught::Panic(p), _) => {
+                            if in_quantifier {
+                                verdict = Some(("medit-read-panic", p.clone()));
+                            } else {
+                                ctx.count("outside_quantifier_panic");
+                            }
+                        }
+                        _ => {}
+                    }
+                    let prefix = if binary { format!("{} | ", cap(hex(&buf))) } else { format!("{} | tok=1 | ", cap(hex(&buf))) };
+                    finish(prefix, dec).0
+                }
+                Caught::Ok(Err(e)) => format!("writer-error {}", e),
+                Caught::Panic(p) => {
+                    if in_quantifier {
+                        verdict = Some(("medit-write-panic", p.clone()));
+                    } else {
+                        ctx.count("outside_quantifier_panic");
+                    }
+                    format!("panic {}", p)
+                }
+                Caught::Hang => "hang".into(),
+            };
+            ctx.count(kind);
+            ctx.count(&format!("{}_blocks_{}", kind, m.blocks.len()));
+            let nontrivial = in_quantifier && (!m.refs.is_empty() || !m.blocks.is_empty());
+            let idx = ctx.record(op.to_string(), out, nontrivial);
+            if let Some((sig, what)) = verdict {
+                ctx.fail(idx, sig, what);
+            }
+        }
+        Some("mdec") => {
+            let Some(b) = it.next().and_then(unhex) else { return bad(ctx) };
+            let given: Vec<&str> = it.collect();
+            if given.join(" ") != parse_table(&b) {
+                return bad(ctx);
+            }
+            let dec = decode_any(ctx, &b);
+            let (out, panicked) = finish(String::new(), dec);
+            if panicked {
+                ctx.count("malformed_input_panic");
+            }
+            ctx.count(&format!("mdec_{}", out.split(' ').take(3).collect::<Vec<_>>().join("_").chars().take(20).collect::<String>()));
+            ctx.record(op.to_string(), out, false);
+        }
+        _ => bad(ctx),
+    }
 }
